@@ -6,7 +6,8 @@
 (*        process_block_header, process_block_headers (header sync),        *)
 (*        process_block (header stage, then body stage)                     *)
 (*   chain/src/txhashset/txhashset.rs : HeaderExtension::validate_root      *)
-(*   core/src/core/block.rs : UntrustedBlockHeader::read                    *)
+(*   core/src/core/block.rs : UntrustedBlockHeader::read, UntrustedBlock    *)
+(*   core/src/core/compact_block.rs : UntrustedCompactBlock                 *)
 (* together with the declarative rule set `Rules` the property states.      *)
 (*                                                                         *)
 (* A header is a record                                                     *)
@@ -33,6 +34,17 @@
 (* the node) drops the proof-of-work / difficulty clauses; SYNC and MINE    *)
 (* are carried to the adapter callbacks and must not reach any rule         *)
 (* (MC_Header!OptionsIrrelevant).                                           *)
+(*                                                                         *)
+(* Wire-entry layer (`Receive`): a header ENTERS the node from a peer in    *)
+(* one of four wrappings (p2p/src/msg.rs) - a Header message, a Headers     *)
+(* batch (items read as UntrustedBlockHeader), a Block (UntrustedBlock) or  *)
+(* a CompactBlock (UntrustedCompactBlock) - and is then handed to the       *)
+(* pipeline call the adapter makes for that message.  The node's clock      *)
+(* `now` is an input of the model: whatever the wrapping, a header from the *)
+(* network is taken only if, on top of `Rules`, its timestamp is not more   *)
+(* than FTL seconds ahead of that clock (`WireRules`).  The chain pipeline  *)
+(* never looks at the clock; the rule lives in the readers only, so every   *)
+(* wrapping must go through it.                                             *)
 (***************************************************************************)
 EXTENDS Difficulty, Integers
 
@@ -181,4 +193,37 @@ ProcessBlock(h, opts, res) ==
 ReadUntrusted(h, now, res) ==
   /\ res = ReadCheck(h, now)
   /\ UNCHANGED known
+
+-----------------------------------------------------------------------------
+(***************************************************************************)
+(* Wire-entry layer.                                                        *)
+(***************************************************************************)
+Wrappings == {"Header", "Headers", "Block", "CompactBlock"}
+
+(* the options the adapter passes to the pipeline for each message
+   (servers/src/common/adapters.rs: header_received, headers_received, block_received -
+   NONE for a broadcast block, SYNC for one requested by body sync -, compact_block_received) *)
+WireOpts(w) == CASE w = "Headers" -> {{"SYNC"}}
+                 [] w = "Block"   -> {{}, {"SYNC"}}
+                 [] OTHER         -> {{}}
+
+(* the property's statement for a header coming from a peer, the same for every wrapping *)
+WireRulesWith(h, kn, nd, now) == RulesWith(h, kn, nd) /\ h.ts <= now + FTL
+WireRules(h, kn, now) == WireRulesWith(h, kn, NetworkDifficulty(kn, h), now)
+
+(* reading the message: every wrapping reads its header(s) through the UntrustedBlockHeader
+   clauses (a Headers batch: item by item, the first refusal refuses the message) *)
+RECURSIVE WireRead(_, _)
+WireRead(hs, now) ==
+  IF hs = <<>> THEN "ok"
+  ELSE LET r == ReadCheck(hs[1], now) IN IF r # "ok" THEN r ELSE WireRead(Tail(hs), now)
+
+(* A message of wrapping w carrying the headers hs (one header unless w = "Headers") arrives
+   while the node's clock shows `now`.  A message the reader refuses never reaches the chain. *)
+Receive(w, hs, now, opts, res) ==
+  LET rd == WireRead(hs, now) IN
+  IF rd # "ok" THEN res = rd /\ UNCHANGED known
+  ELSE CASE w = "Header"  -> ProcessBlockHeader(hs[1], opts, res)
+         [] w = "Headers" -> SyncBlockHeaders(hs, opts, res)
+         [] OTHER         -> ProcessBlock(hs[1], opts, res)   \* Block; CompactBlock after hydration
 =============================================================================
